@@ -151,4 +151,33 @@ theorem no_resolution_self_pointer (recs : Bytes) (p : Nat) (hi lo : UInt8) (h0 
       rw [hself] at hsub
       exact ih n hsub
 
+/-- every resolution starts inside the records -/
+theorem Resolves.lt_length {recs : Bytes} {p : Nat} {n : Name} {j : Nat} (h : Resolves recs p n j) : p < recs.length := by
+  have hget : ∃ b, recs[p]? = some b := by
+    cases h with
+    | root h0 => exact ⟨_, h0⟩
+    | label len l hb => exact ⟨_, hb⟩
+    | pointer hi lo h0 => exact ⟨_, h0⟩
+  obtain ⟨b, hb⟩ := hget
+  rcases Nat.lt_or_ge p recs.length with hx | hx
+  · exact hx
+  · rw [List.getElem?_eq_none hx] at hb; cases hb
+
+/-- a pointer whose offset is inside the 12-byte header or at / after the end of the message has no resolution -/
+theorem no_resolution_oob_pointer (recs : Bytes) (p : Nat) (hi lo : UInt8) (h0 : recs[p]? = some hi)
+    (h1 : recs[p + 1]? = some lo) (h3 : hi.toNat / 64 = 3)
+    (hoob : hi.toNat % 64 * 256 + lo.toNat < 12 ∨ recs.length + 12 ≤ hi.toNat % 64 * 256 + lo.toNat) :
+    ¬ ∃ n j, Resolves recs p n j := by
+  rintro ⟨n, j, hr⟩
+  cases hr with
+  | root h => rw [h0] at h; cases h; simp at h3
+  | label len l hb h1' h2' =>
+    rw [h0] at hb; cases hb
+    rw [u8_ofNat_toNat (by omega)] at h3; omega
+  | pointer hi' lo' hb0 hb1 h3' h12 hsub =>
+    rw [h0] at hb0; cases hb0
+    rw [h1] at hb1; cases hb1
+    have := hsub.lt_length
+    omega
+
 end Tins.Dns
